@@ -43,7 +43,7 @@ trusted = ["hand-written model MptModel/Impl/Heap.lean tied to mptcore/array/*.c
            "(mpt++/array.cpp is compiled into the driver with UBSan's vptr check off: the buffers are C objects with a hand-made vtable)",
            "harness reads the private refcount of buffer_alloc.c through its layout (internals section only)"]
 
-MUTATING = ("append", "insert", "set", "slice", "reserve", "cut", "bset", "printf", "swrite", "detach", "binsert", "string")
+MUTATING = ("append", "insert", "set", "slice", "reserve", "cut", "bset", "printf", "swrite", "detach", "binsert", "string", "vprep")
 
 
 def corpus(chk):
@@ -61,6 +61,7 @@ SETUPS = {
     "c-shared": ["a alloc h0 0 0 c 616263", "a clone h1 h0"],
     "full-shared": ["a alloc h0 64 0 - fill:64:30", "a clone h1 h0"],
     "c-full-shared": ["a alloc h0 64 0 c fill:64:30", "a clone h1 h0"],
+    "d-shared": ["a alloc h0 0 0 d 000000000000f03f00000000000000400000000000000840", "a clone h1 h0"],
 }
 OPNDS = ["0", "1", "u-1", "u", "u+1", "s", "s+1"]
 
@@ -104,6 +105,9 @@ def pool(h, o, level):
         ops.append("a binsert %s %s 4142" % (h, p))
     if level == 2:
         ops.append("a binsert %s 9223372036854775808 zero:8" % h)
+    # mpt_values_prepare (mptplot): append zeroed doubles / a copy of the last ones
+    for n in (["0", "1", "5", "6", "9", "-1", "-3", "-4", "-9"] if level == 2 else ["1", "6", "-1", "-4"] if level == 1 else ["1", "-1"]):
+        ops.append("a vprep %s %s" % (h, n))
     ops.append("a clone %s %s" % (h, o))
     ops.append("a drop %s" % h)
     return ops
@@ -228,7 +232,7 @@ def scripts(tier, seed, scale=1):
         for op in full:
             out.append(("ex1:%s:%s" % (sn, op), _script(setup, [op])))
     pair_pool = red if tier == "quick" else full
-    pair_setups = ["shared", "imm-shared", "p4-shared", "full-shared", "private"] if tier == "quick" else list(SETUPS)
+    pair_setups = ["shared", "imm-shared", "p4-shared", "full-shared", "private", "d-shared"] if tier == "quick" else list(SETUPS)
     if tier == "quick":
         # quick: first op from the reduced pool, second op from the small pool and vice versa
         for sn in pair_setups:
@@ -301,6 +305,8 @@ class _XX:
                 ops.append("x setslice %s %s %d %d" % (h, o, off, n))
                 if level:
                     ops.append("x setslice %s %s %d %d" % (h, h, off, n))
+        # an io::buffer over the array (another handle) consumes n bytes and compacts itself: the array keeps its value
+        ops += ["x ebuf %s 0" % h, "x ebuf %s 3" % h, "x ebuf %s 6" % h, "x ebuf %s 500" % h]
         # array::set(const value &): string, int32, double
         ops += ["x setv %s s fill:5:41" % h, "x setv %s s -" % h, "x setv %s i 01020304" % h, "x setv %s d 0102030405060708" % h]
         if level:
@@ -346,6 +352,8 @@ class _XX:
                 continue   # pairs for the 12-byte POD only in the thorough tier (singles and random histories stay)
             for sn in (("shared", "big-shared") if tier == "quick" else tuple(setups)):
                 first = small if tier == "quick" else full
+                if elem and tier == "quick" and sn == "big-shared":
+                    first = small[::4]      # the model judges 100 tokens after every op: costly, thinned out in the quick tier
                 for a in first:
                     for b in small:
                         out.append(("xx2:%s:%s:%s;%s" % (kind, sn, a, b), wrap(setups[sn], [a, b])))
@@ -478,6 +486,71 @@ class _XX:
         return _xx_nontrivial(script, c_lines)
 
 
+class _Stage:
+    """third part: raw data stages of mptplot/values — an array of value_store elements (each holding an array of
+    doubles) driven through mpt_stage_data + mpt_values_prepare (harness/drv_refs.c, 'r' lines; model
+    MptModel/Impl/Refs.lean); S: the nested value read through every handle is independent of the other handles"""
+    id = "C04"
+    area = "array"
+    driver = "drv_refs"
+    cxx = False
+    fixed_lines = 1
+
+    @staticmethod
+    def corpus(chk):
+        return [(n, s) for n, s in gen.corpus(id) if s and s[0].startswith("r ")]
+
+    @staticmethod
+    def scripts(tier, seed, scale=1):
+        out = []
+        setups = {"empty": [], "two": ["r sput h0 0 1", "r sput h0 1 2"], "two-shared": ["r sput h0 0 1", "r sput h0 1 2", "r clone h1 h0"],
+                  "three-holders": ["r sput h0 0 1", "r sput h0 2 3", "r clone h1 h0", "r clone h2 h0"]}
+        def ops(h, o):
+            return ["r sput %s 0 7" % h, "r sput %s 1 8" % h, "r sput %s 2 9" % h, "r sput %s 4 5" % h, "r clone %s %s" % (h, o), "r drop %s" % h]
+        pool = ops("h0", "h1") + ops("h1", "h0") + ops("h2", "h0")
+        for sn, su in setups.items():
+            for a in pool:
+                out.append(("st1:%s:%s" % (sn, a), ["r handles 3"] + su + [a, "r end"]))
+                for b in pool:
+                    out.append(("st2:%s:%s;%s" % (sn, a, b), ["r handles 3"] + su + [a, b, "r end"]))
+                    if tier != "quick" or sn == "two-shared":
+                        for c in pool[::2]:
+                            out.append(("st3:%s:%s;%s;%s" % (sn, a, b, c), ["r handles 3"] + su + [a, b, c, "r end"]))
+        r = gen.rng(id, tier, seed, "stage")
+        hs = ["h0", "h1", "h2"]
+        for k in range((150 if tier == "quick" else 3000) * scale):
+            lines = ["r handles 3"]
+            for _ in range(r.randrange(4, 20)):
+                h = r.choice(hs)
+                op = r.choice(["sput", "sput", "sput", "clone", "clone", "drop"])
+                if op == "sput":
+                    lines.append("r sput %s %d %d" % (h, r.choice([0, 0, 1, 1, 2, 3, 5]), r.randrange(1, 99)))
+                elif op == "clone":
+                    lines.append("r clone %s %s" % (h, r.choice([x for x in hs if x != h])))
+                else:
+                    lines.append("r drop %s" % h)
+            lines.append("r end")
+            out.append(("str:%d" % k, lines))
+        return out
+
+    @staticmethod
+    def nontrivial(script, c_lines):
+        # a value was stored through a handle while another handle held the same stage
+        shared = False
+        for ln in script:
+            w = ln.split()
+            if w[1] == "clone":
+                shared = True
+            elif w[1] == "sput" and shared:
+                return True
+        return False
+
+    @staticmethod
+    def finding_key(script, res):
+        op = (res.get("op") or "").split()
+        return "stage:%s:%s" % (res["kind"], op[1] if len(op) > 1 else "?")
+
+
 XMUT = ("set", "insert", "append", "setslice", "resize", "reserve", "detach", "trim", "skip", "setv", "mset", "swap", "compact")
 
 
@@ -496,7 +569,7 @@ def _xx_nontrivial(script, c_lines):
     return False
 
 
-extra_parts = [_XX]
+extra_parts = [_XX, _Stage]
 
 
 _I = re.compile(r"\| I ret=\S+ hs=(\S+) bufs=(\S+)")
